@@ -39,8 +39,8 @@ Definition gcomm_step (s : gc) (e : yev) : gc * list yout :=
     if is s communication_COMMUNICATING then let '(s1, o, _) := comm_request s0 "communicationfail" in (s1, o) else (s0, [])
   | YInS1F13 accept =>
     let a := if accept then 0 else 1 in
-    if is s communication_WAIT_CRA then
-      (* answered with on_commack_requested(); only COMMACK 0 makes the transition (D41) *)
+    if is s communication_WAIT_CRA || is s communication_WAIT_DELAY then
+      (* answered with on_commack_requested(); only COMMACK 0 makes the transition (D41); in WAIT_DELAY as in WAIT_CRA (D66) *)
       if accept then let '(s1, o, _) := comm_request s "s1f13received" in (s1, YSendS1F14 a :: o) else (s, [YSendS1F14 a])
     else if is s communication_COMMUNICATING then (s, [YSendS1F14 a])          (* _handle_stream_function -> _on_s01f13 *)
     else (s, [])
